@@ -661,7 +661,7 @@ def prop_C08(repo, tier):
     rules_shape.tag_table(res, prog, sch)
     rules_shape.no_shared_memo(res, prog)
     rules_shape.ea_table(res, prog, sch)
-    rules_shape.ctor_siblings(res, prog)
+    rules_shape.ctor_siblings(res, prog, classify=null_one(res, repo, 'classify'))
     res.floors = {'CLASSIFY-TOTAL': 3, 'TAG-TABLE': 16, 'EA-TABLE': 10, 'CTOR-SIBLINGS': 2}
     res.explanation = (
         'Static analysis: (1) CLASSIFY-TOTAL - exception-flow interpretation of from_string/from_file/from_s3 -> _classify -> '
@@ -910,12 +910,13 @@ def prop_C18(repo, tier):
     from . import rules_shape
     res = CheckResult('C18', tier)
     prog = program(repo)
-    rules_shape.ctor_siblings(res, prog)
+    rules_shape.ctor_siblings(res, prog, classify=null_one(res, repo, 'classify'))
     rules_shape.no_shared_memo(res, prog)
     rules_shape.sorted_ctors(res, prog)
     rules_shape.collection_ctor_siblings(res, prog)
     rules_shape.restore_pair(res, prog)
     rules_shape.fresh_read(res, prog)
+    rules_shape.lt_numeric(res, prog)          # the order of a collection must not depend on where a message came from
     rules_shape.all_pages(res, prog)
     cls_sets = {}
     for r in null_one(res, repo, 'classify'):
